@@ -35,6 +35,9 @@ def r13_1(repo: Repo) -> RuleResult:
                     what_root = "the object passed as `%s` to %s (kept on self)" % (root.split(".", 1)[1], root[2:].split(".")[0])
                 elif root.startswith("A:") and root[2:] in ctor:
                     what_root = "the object passed as constructor parameter `%s`" % root[2:]
+                elif root.startswith("A:") and entry == "__add__":
+                    # `self` is an operand of the operator: its fitted state is input data here
+                    what_root = "the fitted state `%s` of the left operand" % root[2:]
                 else:
                     continue
                 hits.append((mu, what_root))
